@@ -14,6 +14,7 @@ DECIDED = ("R1 Board::state is, exactly, the table (no legal move, in check) -> 
            "and both cached sets cleared before being rebuilt; R4 every successful return of the FEN parser and of the builder is dominated by the from-scratch refresh.")
 DECIDED = DECIDED + ' R6 holds on EVERY way out of update_pin_info (an early return in front of the knight/pawn checkers is reported).'
 DECIDED = DECIDED + ' R3/R4/R6: the from-scratch computation is found by role (the private function both constructors call, whose call tree consults `between` and which establishes pinned and checkers), as a `&mut Board` method or as a function returning the pair that both constructors store (which component is which is read off their stores; disagreeing callers are reported; the Ok return must be dominated by both stores).'
+DECIDED = DECIDED + ' R90 premises re-run here: C01 C01.R1, C01.R2, C01.R3, C01.R5; C04 C04.R2; C05 C05.R4.'
 NOT_DECIDED = ("equality of incrementally maintained and rebuilt state on actual histories (needs the semantics of the bitboard arithmetic on real positions); "
                "'in check exactly when the king is attacked' beyond the dependence clauses of R3")
 EXPLANATION = "K4 decision table for state/in_check; K2 dominance for the constructors; K3 dependence signatures (set of lookups/fields reached) for the two computations of the cached sets."
@@ -281,6 +282,16 @@ def r3(ctx):
             if {"between", "count"} <= names and (("none" in names and 1 in consts) or {0, 1} <= sw):
                 n_ok += 1
       ctx.ob(f"{key.rsplit('::',1)[1]} checker/pin split", n_ok == 1, f"{key}: the slider loop does not classify `between` as empty (check) / exactly one blocker (pin)", site=P.body(key).get("def_span"))
+
+
+@rule("C03.R90", 'premises shared with other properties: C01 (C01.R1, C01.R2, C01.R3, C01.R5); C04 (C04.R2); C05 (C05.R4)')
+def r_premises_shared(ctx):
+    """This property's argument rests on these rules of other properties (what it calls is assumed to behave); they are re-run here so that a
+    breakage of one of them is reported by this property's own check as well."""
+    from analysis.runner import premise
+    premise(ctx, 'C01', ['C01.R1', 'C01.R2', 'C01.R3', 'C01.R5'] and set(['C01.R1', 'C01.R2', 'C01.R3', 'C01.R5']), 'state() decides mate / stalemate from the generated move list; the list is no longer exactly the legal moves')
+    premise(ctx, 'C04', ['C04.R2'] and set(['C04.R2']), 'the incremental hash is part of the incrementally maintained state; a mutation is no longer paired with its key')
+    premise(ctx, 'C05', ['C05.R4'] and set(['C05.R4']), 'the castling field of the text form no longer names the rights the board holds')
 
 
 # ------------------------------------------------------------------ controls
